@@ -91,11 +91,9 @@ pub(crate) fn checked_div_rounded(
             shift = divident_n_frac_digits - shift;
             // shift < divident_n_frac_digits => shift < 18 => ten_pow(shift)
             // is safe
-            let (quot, rem) = if divisor_coeff < 0 {
-                i128_div_mod_floor(-divident_coeff, -divisor_coeff)
-            } else {
-                i128_div_mod_floor(divident_coeff, divisor_coeff)
-            };
+            // floor division: rem, if non-zero, has the sign of the divisor
+            let (quot, rem) =
+                i128_div_mod_floor(divident_coeff, divisor_coeff);
             if rem == 0 {
                 Some(i128_div_rounded(quot, ten_pow(shift), None))
             } else {
